@@ -1035,6 +1035,16 @@ def gen_chp(env, nodes, grid_freq="h", cls=None, need_bool=False):
                 for k_ in ("start_ramp_lower_bounds", "start_ramp_upper_bounds", "shutdown_ramp_lower_bounds", "shutdown_ramp_upper_bounds"):
                     if k_ in kw:
                         kw[k_] = t_nd(kw[k_])
+    if "start_ramp_lower_bounds" in kw and cls != "Plant" and not kw.get("_no_heat") and rng.random() < 0.4:
+        # heat bounds during the ramps (same lengths as the power ramps); a fixed profile has lower == upper
+        fixed_ = rng.random() < 0.5
+        for side in ("start", "shutdown"):
+            lo_k = "%s_ramp_lower_bounds" % side
+            if lo_k in kw:
+                base_ = kw[lo_k]["v"] if isinstance(kw[lo_k], dict) else kw[lo_k]
+                lo_h = [round(0.5 * float(x), 2) for x in base_]
+                kw[lo_k + "_heat"] = lo_h
+                kw["%s_ramp_upper_bounds_heat" % side] = list(lo_h) if fixed_ else [round(x * 1.5 + 1.0, 2) for x in lo_h]
     if has_fuel:
         if rng.random() < 0.7:
             kw["fuel_efficiency"] = gen_vec(env, 0.3, 0.9, "fe", p_scalar=0.8)
